@@ -32,6 +32,16 @@ type Exec struct {
 	curSafety bool
 	bounded   int
 	inlineDepthNow int
+	cbs       map[int]*cbInfo
+}
+
+// cbInfo: a callback that a callee invokes repeatedly (`calls P loop`): the
+// sequence of argument tuples is a ghost array per argument leaf.
+type cbInfo struct {
+	ord    int
+	args   [][]string // per parameter, per leaf: array term (Array Int sort)
+	ptypes []types.Type
+	count  string // number of completed invocations in the current state
 }
 
 type Frame struct {
